@@ -15,7 +15,6 @@ store for three fixed workloads (finite set, partitioned over the workers).
 import os
 import struct
 import time
-import zlib
 
 from hypothesis import strategies as st
 
@@ -38,17 +37,26 @@ FIXED = [
 ]
 ENUM_STORES = ["rock", "ufs", "aufs", "diskd"]
 ENUM_PARTIALS = [-1, 1000]
-ENUM_NMAX = 44
+ENUM_NMAX = 36
+
+
+_WORKER = [0, 1]      # (index, count) of this harness worker, set by setup() before strategy() is called
+
+
+def enum_points():
+    """The finite set of the thorough tier, in a fixed order."""
+    return [{"store": s, "fixed": f, "partial": p, "crash_at": n}
+            for s in ENUM_STORES for f in range(len(FIXED)) for p in ENUM_PARTIALS for n in range(1, ENUM_NMAX + 1)]
 
 
 def strategy(tp):
     if tp.get("enumerate"):
-        return st.fixed_dictionaries({
-            "store": st.sampled_from(ENUM_STORES),
-            "fixed": st.integers(0, len(FIXED) - 1),
-            "partial": st.sampled_from(ENUM_PARTIALS),
-            "crash_at": st.integers(1, ENUM_NMAX),
-        })
+        # Deterministic enumeration: this worker's share of the finite set, one point per example, in order (Hypothesis only
+        # supplies the ticks; random sampling of a 1056-point product does not visit every point).  When the share is used
+        # up the remaining examples are no-ops.
+        mine = [pt for i, pt in enumerate(enum_points()) if i % _WORKER[1] == _WORKER[0]]
+        queue = iter(mine)
+        return st.integers(0, 2 ** 60).map(lambda _tick: next(queue, {"enum_done": True}))
     op = st.fixed_dictionaries({
         "op": st.sampled_from(["get", "refresh", "get", "refresh", "purge"]),
         "u": st.integers(0, 3),
@@ -64,6 +72,7 @@ def strategy(tp):
 
 
 def setup(ctx):
+    _WORKER[0], _WORKER[1] = ctx.worker, max(1, int(ctx.params.get("workers", 1)))
     env = ds.DiskEnv(ctx)
     env.calibrated = {}
     return env
@@ -88,18 +97,18 @@ def _estimate_writes(store, ops):
 def execute(env, sc):
     r = Result()
     t0 = time.time()  # harness trace only
+    if sc.get("enum_done"):
+        if not getattr(env, "enum_done_seen", False):
+            env.enum_done_seen = True
+            r.label("enum-share-of-worker-completed")
+        r.sub_evaluations = 0
+        return r
     store = sc["store"]
     if "fixed" not in sc and env.duplicate_minimal_example():
         r.label("minimal-example-left-to-worker-0")
         r.sub_evaluations = 0
         return r
     if "fixed" in sc:
-        nworkers = int(env.ctx.params.get("workers", 1))
-        point = zlib.crc32(("%s/%d/%d/%d" % (store, sc["fixed"], sc["partial"], sc["crash_at"])).encode())
-        if point % nworkers != env.ctx.worker % nworkers and env.ctx.tier == "thorough":
-            r.label("enum-point-of-another-worker")
-            r.sub_evaluations = 0
-            return r
         ops = [{"op": o, "u": u, "size": n} for (o, u, n) in FIXED[sc["fixed"]]]
         crash_at = sc["crash_at"]
         known = env.calibrated.get((store, sc["fixed"]))
@@ -239,7 +248,9 @@ def _run(env, sc, sq, r, ops, crash_at):
             hits += 1
             continue
         if not m.complete and any(content.body(u, v).startswith(m.body) for v in served):
-            r.label("hit-truncated-with-correct-prefix")      # delivered as incomplete: the client can tell
+            # the client can tell (framing not satisfied), but the hit is not byte-identical to a complete response
+            r.fail("hit-truncated:" + store.split("-")[0], "u%d: only-if-cached 200 after the crash delivered only %d body bytes (a correct prefix) and ended early; crash_at=%d partial=%d" % (
+                u, len(m.body), crash_at, partial))
             continue
         cls = ""
         if store.startswith("rock") and fired and partial >= 0 and any(content.served[path][v] == len(m.body) for v in content.all_versions(u)):
